@@ -379,6 +379,7 @@ pub fn decode(t: &mut Tape) -> Case {
         let e_rand = tid("ext_rand", "UNKNOWN");
         let e_memfn = tid("ext_memfn", "UNKNOWN");
         let e_unk = tid("ext_unk", "UNKNOWN");
+        let e_stk = tid("ext_stk", "UNKNOWN");
         externs = vec![
             extern_symbol(e_malloc.clone(), "malloc", &["RDI"], false),
             extern_symbol(e_rand.clone(), "rand", &[], false),
@@ -386,6 +387,12 @@ pub fn decode(t: &mut Tape) -> Case {
             {
                 let mut u = extern_symbol(e_unk.clone(), "unk", &[], false);
                 u.return_values = vec![];
+                u
+            },
+            {
+                // a function with a stack parameter (the slot above the return address)
+                let mut u = extern_symbol(e_stk.clone(), "stk", &["RDI"], false);
+                u.parameters.push(Arg::Stack { address: ebin(IntAdd, evar(&var("RSP", 8)), econst(8, 8)), size: ByteSize::new(8), data_type: None });
                 u
             },
         ];
@@ -472,13 +479,20 @@ pub fn decode(t: &mut Tape) -> Case {
         for _ in 0..ncalls {
             let bi = g.t.below(nblocks - 1);
             let bb = sbase + 0x40 * bi as u64;
-            let target = match g.t.below(if with_callee { 8 } else { 4 }) {
+            let target = match g.t.below(if with_callee { 9 } else { 5 }) {
                 0 => e_malloc.clone(),
                 1 => e_rand.clone(),
                 2 => e_memfn.clone(),
                 3 => e_unk.clone(),
+                4 => e_stk.clone(),
                 _ => sub_tid(gbase),
             };
+            if target == e_stk {
+                // the stack argument: written by the caller just below the return address slot
+                let c = g.small();
+                blocks[bi].term.defs.push(store(instr_tid(bb + 0x3c, 0), evar(&var("RSP", 8)), econst(c, 8)));
+                g.feat("call-with-stack-argument");
+            }
             // argument set-up: pointers into the own stack frame, copies of other registers, constants
             for (k, p) in ["RDI", "RSI"].iter().enumerate() {
                 let t0 = instr_tid(bb + 0x3a + k as u64, 0);
@@ -700,6 +714,16 @@ impl<'a, 'b> Obs<'a, 'b> {
                 .collect()
         };
         let ptrs: Vec<u64> = param_regs.iter().map(|r| state.get(&var(r, 8)).v as u64).collect();
+        // the callee owns its stack arguments and may overwrite them
+        for a in &sym.parameters {
+            if let Arg::Stack { address, size, .. } = a {
+                let addr = state.eval(address).v as u64;
+                if Self::writable(state, addr) && next() % 4 != 0 {
+                    state.write_mem(addr, u64::from(*size) as usize, next() as u128);
+                    self.extern_writes += 1;
+                }
+            }
+        }
         // memory effects
         if sym.name != "malloc" && sym.name != "rand" {
             for p in ptrs {
